@@ -1879,6 +1879,28 @@ class Gen:
             p = st["pat"]
             if p["k"] == "pwild":
                 return self.E(st["e"], env, ctx, lambda v, env2: rest(env2))
+            if p["k"] == "ptuple" and p["elems"] and all(
+                    x["k"] == "pwild" or (x["k"] == "pident" and len(x["segs"]) == 1 and not self.variant_of(x["segs"], env, ctx)
+                                          and x["segs"] != ["None"]) for x in p["elems"]):
+                # `let (a, b) = e;` with plain names / `_`: an irrefutable Lean pattern let (a 3-tuple of bytes is the structure Bytes)
+                def kt(v, env2):
+                    ty = st["type"] or self.rtype(st["e"], env2, ctx)
+                    n = len(p["elems"])
+                    ets = ty["elems"] if ty and ty["k"] == "tuple" and len(ty["elems"]) == n else [None] * n
+                    names = []; env3 = env2
+                    for x, et in zip(p["elems"], ets):
+                        if x["k"] == "pwild": names.append("_")
+                        else:
+                            ln, env3 = self.bind_var(env3, x["segs"][0], et)
+                            names.append(ln)
+                    is_bytes = (self.cfg.get("tuple3_bytes") and n == 3 and
+                                (ty is None or (ty["k"] == "tuple" and [t.get("name") for t in ty["elems"]] == ["u8", "U7", "U7"])))
+                    if n == 3 and self.cfg.get("tuple3_bytes") and not is_bytes:
+                        raise TErr("destructuring let of a 3-tuple that is not (u8, U7, U7) is outside the subset")
+                    if is_bytes and ty is None: raise TErr("destructuring let of a 3-tuple of unknown type is outside the subset")
+                    lhs = "⟨%s⟩" % ", ".join(names) if is_bytes else "(%s)" % ", ".join(names)
+                    return ["let %s := %s" % (lhs, v)] + rest(env3)
+                return self.E(st["e"], env, ctx, kt)
             if p["k"] != "pident" or len(p["segs"]) != 1: raise TErr("destructuring let is outside the subset")
             name = p["segs"][0]
             def kl(v, env2):
